@@ -248,7 +248,7 @@ def build(tree, ordered=True, probe=False, staged=False):
             first = {'preamble': 'first\r\ndraft', 'meta': {'draft': 1},
                      'diff': b'draft\r\n'}
             order = ([(k, first[k]) for k in attrs if k in first] +
-                     list(attrs.items()) +
+                     [(k, v) for k, v in attrs.items() if k not in first] +
                      [(k, v) for k, v in attrs.items() if k in first])
             obj = factory()
 
